@@ -526,6 +526,25 @@ def run_rules(m, r):
     r.check(len(dels) >= 1, "R20.2", fn(add_unres), "a resolved next hop is no longer pending", m.pos(add_unres), "del cache[next_hop]", "resolved next hops stay in the pending cache (and are pinged for ever)")
     for k, n in dels:
         r.check(enclosing(n, ast.For) is None, "R20.2", fn(add_unres), "the pending entry is dropped after all its routes were installed", m.pos(n), "outside the loop", "the pending entry is deleted inside the installation loop")
+    # no early exit: the only way past a resolved neighbour without installing is "nothing is waiting"
+    def own_returns(f):
+        outr = []
+        def walk(n):
+            for ch in ast.iter_child_nodes(n):
+                if isinstance(ch, (ast.FunctionDef, ast.Lambda)):
+                    continue
+                if isinstance(ch, (ast.Return, ast.Raise)):
+                    outr.append(ch)
+                walk(ch)
+        walk(f)
+        return outr
+    pending_names = {k for k, v in env_u.items() if UN in norm(m, v, env_u)}
+    for ret in own_returns(add_unres):
+        iff = enclosing(ret, ast.If)
+        t = ast.unparse(iff.test) if iff is not None else ""
+        okr = iff is not None and isinstance(iff.test, ast.UnaryOp) and isinstance(iff.test.op, ast.Not) and ast.unparse(iff.test.operand) in pending_names
+        r.check(okr, "R20.2", fn(add_unres), "a resolved neighbour is ignored only when nothing waits for it", m.pos(ret), f"return under `{t}`",
+                f"add_unresolved_new_neighbor leaves at line {ret.lineno}" + (f" under `{t}`" if t else "") + ": routes waiting for this next hop are not installed although its MAC is now known")
     # add_new_route_entry: unknown MAC → pending, known MAC → install
     pr, ins = self_calls(add_new, "_probe_addr"), self_calls(add_new, "_add_neighbor")
     r.check(len(pr) == 1 and len(ins) == 1, "R20.2", fn(add_new), "a new route is either parked or installed", m.pos(add_new), "one _probe_addr, one _add_neighbor", f"{len(pr)} _probe_addr / {len(ins)} _add_neighbor calls")
@@ -717,6 +736,24 @@ def run_rules(m, r):
             r.check(cdel and all(any(n in ast.walk(s) for s in z.body) for n in cdel), "R20.7", fn(del_rt), "the neighbor entry is forgotten exactly when its last route went", m.pos(z), "del under count == 0", "the neighbor entry is removed while routes remain (their gate would be re-assigned) or never")
             for n in cdel:
                 r.check(ast.unparse(n) == "self._neighbor_cache[route_entry.next_hop_ip]", "R20.7", fn(del_rt), "the entry forgotten is the deleted route's next hop", m.pos(n), ast.unparse(n), f"deletes {ast.unparse(n)}")
+    # nothing decides before the neighbor-cache branch: an installed route's delete always reaches BESS
+    top = [i for i, st in enumerate(del_rt.body) if isinstance(st, ast.If) and ast.unparse(st.test) in ("next_hop", "next_hop is not None")]
+    r.check(len(top) == 1, "R20.7", fn(del_rt), "the delete path branches on the neighbor cache at its top level", m.pos(del_rt), "if next_hop:", "delete_route_entry no longer branches on the neighbor-cache hit at top level")
+    if top:
+        early = [x for st in del_rt.body[:top[0]] for x in ast.walk(st) if isinstance(x, (ast.Return, ast.Raise))]
+        r.check(not early, "R20.7", fn(del_rt), "no exit before the neighbor-cache branch", m.pos(early[0]) if early else m.pos(del_rt), "none",
+                f"delete_route_entry can leave at line {early[0].lineno if early else 0} before it looked at the neighbor cache: the delete of a route that IS installed is swallowed (stale prefix in the lookup module, count never drops, Update module outlives its last route)")
+        first = del_rt.body[top[0]].body[0] if del_rt.body[top[0]].body else None
+        okf = first is not None and any(isinstance(x, ast.Call) and isinstance(x.func, ast.Attribute) and x.func.attr == "delete_module_route_entry" for x in ast.walk(first))
+        r.check(okf, "R20.7", fn(del_rt), "for a known next hop the BESS delete is the first action", m.pos(first) if first is not None else m.pos(del_rt), "delete_module_route_entry first", "something precedes the BESS delete in the known-next-hop branch")
+    # add path: the only exits of add_new_route_entry are an invalid next hop and a parked route
+    for ret in own_returns(add_new):
+        iff = enclosing(ret, ast.If)
+        t = ast.unparse(iff.test) if iff is not None else ""
+        okr = iff is not None and (("validate_ipv4" in t and t.startswith("not ")) or ("fetch_mac" in t and t.startswith("not ") and any(isinstance(x, ast.Call) and is_self_attr(x.func, "_probe_addr") for b in iff.body for x in ast.walk(b))))
+        r.check(okr, "R20.7", fn(add_new), "a new route is dropped only for an invalid next hop, parked only while its MAC is unknown", m.pos(ret), f"return under `{t}`", f"add_new_route_entry leaves at line {ret.lineno}" + (f" under `{t}`" if t else "") + " without installing or parking the route")
+    for ret in own_returns(add_nb):
+        r.check(enclosing(ret, ast.ExceptHandler) is not None, "R20.7", fn(add_nb), "_add_neighbor gives up only when BESS refused the route", m.pos(ret), "return inside except", f"_add_neighbor leaves at line {ret.lineno} outside an exception handler: the route or its bookkeeping is skipped")
     # the next hop looked up is the deleted route's
     env_d = env_del
     nh = env_d.get("next_hop")
